@@ -26,6 +26,15 @@ ASSUMPTIONS = [
 TYPES = [0, 1, 2, 3, 4, 5, 6, 7, 255, 256, 257, 261, 0x0200, 0x0300, 0x0500, 0x0501, 0xFF00, 0xFFFF]
 EDGE = [0, 1, 7, 8, 9, 11, 12, 13, 15, 16, 17, 23, 24, 25, 31, 32, 33, 39, 40, 41, 87, 88, 95, 96, 97, 104, 105, 140]
 
+LEVEL_TEXT = ("Machine-checked proof (Lean 4) that the model of Msg::from_buf never panics, consumes between 1 and len bytes "
+              "(0 only for the empty buffer), produces a typed message only for its type code with a declared length covering "
+              "the fixed fields, with every field equal to the little-endian value at its documented offset, and surfaces "
+              "everything else as unknown or error - for all byte lists, no size bound. The model is tied to the code by a "
+              "differential run over a (type x declared x actual length) grid, mutated encodings and random bytes.")
+LEVEL_NOTE = ("Trusts: Lean kernel; the correspondence (exhaustive on grid boundaries, sampled inside); Rust slice/cast semantics as "
+              "modelled. Not covered: UB of the &[u8]->&[u32] transmute itself.")
+TECHNIQUE = "Lean 4 theorems over all byte lists + differential correspondence + Lean oracle on implementation output"
+
 
 def payload(rng, typ, total, variant):
     """payload bytes after the header so that the whole buffer has `total` bytes"""
